@@ -338,6 +338,24 @@ def one_run(ctx, corr):
         want_ba = (want_b + 1) ** (DAYS_A_YEAR / len(days)) - 1
         if not close(float(summ["benchmark_annualized_returns"]), want_ba, 1e-8, 1e-12):
             ctx.witness("C18.3", {"kind": "benchmark_annualized"}, "benchmark_annualized_returns %r, expected %r" % (summ["benchmark_annualized_returns"], want_ba), rp)
+    if bparts is not None and len(bparts) > 1:
+        # composite benchmark: the daily return is the weight-normalised average of the parts' daily returns (a 'null' part returns 0)
+        i0, i1 = S["cal"].index(days[0]) - 1, S["cal"].index(days[-1])
+        wsum = sum(w for _, w in bparts)
+        comp_b = 1.0
+        for i in range(i0 + 1, i1 + 1):
+            r_d = 0.0
+            for oid, w in bparts:
+                if oid == "null":
+                    continue
+                srec = next(x for x in S["stocks"] if x["id"] == oid)
+                fac = S["fac"].get(oid) or [(0, 1.0)]
+                Fi = lambda j: [f for (d0, f) in fac if d0 <= srec["bars"][j][0]][-1]
+                r_d += w * ((srec["bars"][i][2] * Fi(i)) / (srec["bars"][i - 1][2] * Fi(i - 1)) - 1)
+            comp_b *= 1 + r_d / wsum
+        if not close(float(summ["benchmark_total_returns"]), comp_b - 1, 1e-9, 1e-12):
+            ctx.witness("C18.3", {"kind": "composite_benchmark_total"}, "benchmark %s: benchmark_total_returns %r, compounded weight-normalised daily returns of the parts - 1 = %r"
+                        % (bench, summ["benchmark_total_returns"], comp_b - 1), rp)
     ctx.nontrivial("report", bkind, tuple(sorted(cfgk["accounts"])), min(len(days), 3), n_tr > 0)
     ctx.stats["records"] += len(i_pf)
     ctx.stats["trade_rows"] += len(i_tr)
